@@ -299,6 +299,24 @@ class _Skip(Exception):
     pass
 
 
+def site_insert_after_last(a, b, e):
+    labs = _labels(len(a))
+    r = sf.Series(a, index=labs).insert_after(labs[-1], sf.Series(b, index=_labels(len(b), 10)))
+    return list(a) + list(b), r.values, True, [a.dtype, b.dtype], []
+
+
+def site_insert_before_first(a, b, e):
+    labs = _labels(len(a))
+    r = sf.Series(a, index=labs).insert_before(labs[0], sf.Series(b, index=_labels(len(b), 10)))
+    return list(b) + list(a), r.values, True, [a.dtype, b.dtype], []
+
+
+def site_insert_before_last(a, b, e):
+    labs = _labels(len(a))
+    r = sf.Series(a, index=labs).insert_before(labs[-1], sf.Series(b, index=_labels(len(b), 10)))
+    return list(a[:-1]) + list(b) + [a[-1]], r.values, True, [a.dtype, b.dtype], []
+
+
 def _two_col_block(a):
     '''a Frame whose columns p, q live in ONE 2-D block of a's dtype, plus a separate column r'''
     if a.dtype.kind == 'O':
